@@ -99,7 +99,10 @@ def _format_content_disposition(
     #   Include a "filename" parameter when US-ASCII ([US-ASCII]) is
     #   sufficiently expressive.
     if value.isascii():
-        return '%s; filename="%s"' % (disposition_type, value)
+        # NOTE: quoted-string (RFC 9110, Section 5.6.4): escape the two
+        #   characters that would otherwise end or alter the string.
+        escaped = value.replace('\\', '\\\\').replace('"', '\\"')
+        return '%s; filename="%s"' % (disposition_type, escaped)
 
     # NOTE(vytas): RFC 6266, Appendix D.
     #   * Include a "filename*" parameter where the desired filename cannot be
